@@ -120,7 +120,7 @@ class MapState:
 
 class State:
     __slots__ = ('frames', 'fmeta', 'objs', 'maps', 'zone', 'events', 'unwinding', 'depth',
-                 'next_id', 'assumed', 'notes', 'keep')
+                 'next_id', 'assumed', 'notes', 'keep', 'pairs')
 
     def __init__(self):
         self.frames = {}      # fid -> {local: val}
@@ -135,6 +135,7 @@ class State:
         self.assumed = ()
         self.notes = ()
         self.keep = frozenset()   # heap cells that model caller-owned memory (never collected)
+        self.pairs = {}           # opaque array tag -> (x, y, J) | None: pairwise-compared prefix (DESIGN §14.8)
 
     def fork(self):
         s = State.__new__(State)
@@ -150,6 +151,7 @@ class State:
         s.assumed = self.assumed
         s.notes = self.notes
         s.keep = self.keep
+        s.pairs = dict(self.pairs)
         return s
 
     def new_id(self, prefix):
